@@ -668,6 +668,12 @@ impl<'lexer> Lexer<'lexer> {
         // return the name that exists in the current context
         return Ok((TokenType::Name, TokenValue::Name(part_sublist.to_vec().into())));
       }
+      // where a type name is expected, a built-in type name ends the name, whatever follows it
+      if self.type_name && is_built_in_type_name(&name) {
+        self.type_name = false;
+        self.position = consumed_positions[part_count - 1] + 1;
+        return Ok((TokenType::BuiltInTypeName, TokenValue::BuiltInTypeName(part_sublist.to_vec().into())));
+      }
       part_count -= 1;
     }
 
@@ -677,12 +683,7 @@ impl<'lexer> Lexer<'lexer> {
     // ------------------------------------------------------------------------
     // tweak with built-in type names
     // ------------------------------------------------------------------------
-    if self.type_name
-      && matches!(
-        name.to_string().as_str(),
-        "Any" | "Null" | "boolean" | "number" | "string" | "date" | "date and time" | "time" | "years and months duration" | "days and time duration"
-      )
-    {
+    if self.type_name && is_built_in_type_name(name.to_string().as_str()) {
       self.type_name = false;
       return Ok((TokenType::BuiltInTypeName, TokenValue::BuiltInTypeName(name)));
     }
@@ -976,6 +977,14 @@ fn is_hex_digit(ch: char) -> bool {
 /// that is a character that is allowed after keyword `not` at the beginning of unary tests.
 fn is_keyword_not_separator(ch: char) -> bool {
   matches!(ch, WS | '(')
+}
+
+/// Returns `true` when the specified text is the name of a built-in type.
+fn is_built_in_type_name(name: &str) -> bool {
+  matches!(
+    name,
+    "Any" | "Null" | "boolean" | "number" | "string" | "date" | "date and time" | "time" | "years and months duration" | "days and time duration"
+  )
 }
 
 /// Returns `true` when the specified character is an additional name symbol.
